@@ -20,7 +20,11 @@ one abstract run per external signing entry point (pure; HashML-DSA x 3 pre-hash
   S7  A-hat = ExpandA(rho of the private key) with the FIPS index bytes and order.
   S8  the scalar kernels on the signing path equal their FIPS definitions on their whole domain:
       Decompose / HighBits / LowBits, MakeHint, mod+- (engine of C15).
-Not decided: the ring arithmetic (NTT, products) - values of w, z, h as polynomials.
+  S9  the ring arithmetic of the loop body (Alg. 7 lines 12-26), symbolically: w = NTT^-1(A-hat o
+      NTT(y)); c-hat = NTT(c); c*s1, c*s2, c*t0 from the key precomputes (Montgomery factor
+      cancels); z = y + c*s1; w1 = HighBits(w); LowBits(w - c*s2); MakeHint(-c*t0, w - c*s2 + c*t0).
+      With C18 F (the transforms are the FIPS maps) every step of Sign_internal is accounted for.
+Trusted: the hash implementations; that NTT diagonalises the negacyclic product (mathematics).
 """
 import os
 import sys
@@ -30,6 +34,7 @@ sys.path.insert(0, os.path.dirname(os.path.abspath(__file__)))
 import absorb
 import aicheck
 import structure as st
+import roots
 import vlib
 import c06
 import c15
@@ -128,6 +133,87 @@ def sign_rules(j, P, s, mode, ob):
     return {"set": s, "mode": mode, "kappa": kap[:6], "emit_condition": {kx.split(": ", 1)[1]: list(v) for kx, v in list(norms.items()) + list(sums.items())}}
 
 
+def parse_forms(p):
+    out = []
+    for line in p["data"]["forms"].split("\n"):
+        if line == "":
+            continue
+        if line == "-":
+            out.append(None)
+            continue
+        m, d, terms = line.split("|", 2)
+        out.append((int(m), int(d), {t.rsplit(":", 1)[0]: int(t.rsplit(":", 1)[1]) for t in terms.split(",") if t}))
+    return out
+
+
+def ring_arithmetic(rep, ob, sets, samples):
+    """S9: one symbolic run of the body of the signing loop (first iteration; `loopcut`): matrix entries, mask
+    coefficients, the challenge, the private key's precomputes and the outputs of the transforms are named symbols,
+    products of two symbols are interned product symbols, everything is followed modulo q."""
+    Q = 8380417
+    RINV = pow(pow(2, 32, Q), Q - 2, Q)
+    jobs = {}
+    for s in sets:
+        n = roots.names(s)
+        jobs[s] = [("%s:ring" % s, n["try_sign_with_rng"], {"sk": "from_bytes", "rng": "ok", "len.ctx": "0..255", "modulus": str(Q), "lin.cap": "600", "atoms.key": "1",
+                                                           "atomize": "hashing::rej_ntt_poly|hashing::expand_mask|hashing::sample_in_ball|ntt::ntt|ntt::inv_ntt",
+                                                           "dump_args": "ntt::ntt|ntt::inv_ntt|encodings::sig_encode|high_low::make_hint|high_low::low_bits|high_low::high_bits",
+                                                           "loopcut": "ml_dsa::sign_internal:1"})]
+    res, errs = aicheck.run_sets(jobs, timeout=6000)
+    for s in sets:
+        P = aicheck.PARAMS[s]
+        k, l = P["k"], P["l"]
+        r = res.get(s)
+        if r is None or r["jobs"][0].get("error"):
+            vlib.fail_closed(rep, "driver-ring:%s" % s, (errs.get(s) or str(r and r["jobs"][0].get("error")))[-400:])
+            continue
+        pr = [p for p in r["jobs"][0]["probes"] if p["what"] == "arg_forms"]
+        # ordinal of every transform call = its position among all calls of that function in the job
+        nt = [p for p in pr if p["inst"].startswith("ntt::ntt::<")]
+        iv = [p for p in pr if p["inst"].startswith("ntt::inv_ntt::<")]
+        in_sign = lambda p: "sign_internal" in p["data"].get("path", "")
+        nt_s = [(i, p) for i, p in enumerate(nt) if in_sign(p)]
+        iv_s = [(i, p) for i, p in enumerate(iv) if in_sign(p)]
+        ok = len(nt_s) >= 2 and len(iv_s) >= 4
+        detail = {"ntt_calls_in_loop": len(nt_s), "inv_ntt_calls_in_loop": len(iv_s)}
+        okw = okc = okcs = okz = okk = False
+        if ok:
+            (oy, py), (oc, pc) = nt_s[0], nt_s[1]
+            fy, fc = parse_forms(py), parse_forms(pc)
+            # y-hat = NTT(ExpandMask output), c-hat = NTT(SampleInBall output)
+            em = sorted({nm.split("[")[0] for f in fy if f for nm in f[2]})
+            okw = len(fy) == 256 * l and len(em) == 1 and em[0].startswith("expand_mask#") and all(f == (0, 0, {"%s[%d]" % (em[0], i): 1}) for i, f in enumerate(fy))
+            sb = sorted({nm.split("[")[0] for f in fc if f for nm in f[2]})
+            okc = len(fc) == 256 and len(sb) == 1 and sb[0].startswith("sample_in_ball#") and all(f == (0, 0, {"%s[%d]" % (sb[0], i): 1}) for i, f in enumerate(fc))
+            (o0, p0), (o1, p1), (o2, p2), (o3, p3) = iv_s[:4]
+            f0, f1, f2, f3 = parse_forms(p0), parse_forms(p1), parse_forms(p2), parse_forms(p3)
+            okw = okw and len(f0) == 256 * k and all(f == (Q, 0, {"(rej_ntt_poly#%d[%d]*ntt#%d[%d])" % ((i // 256) * l + j, i % 256, oy, j * 256 + i % 256): 1 for j in range(l)}) for i, f in enumerate(f0))
+            def prod(forms, field, npoly):
+                return len(forms) == 256 * npoly and all(f == (Q, 0, {"(ntt#%d[%d]*sk.%s[%d])" % (oc, i % 256, field, i): RINV}) for i, f in enumerate(forms))
+            okcs = prod(f1, "s_1_hat_mont", l) and prod(f2, "s_2_hat_mont", k) and prod(f3, "t_0_hat_mont", k)
+            se = [p for p in pr if p["inst"].startswith("encodings::sig_encode") and in_sign(p)]
+            if se:
+                fz = [f for f in parse_forms(se[0]) if f is None or f[2]][:256 * l]  # the leading scalar arguments (gamma1, omega) are constants
+                okz = len(fz) == 256 * l and all(f == (Q, 0, {"%s[%d]" % (em[0], i): 1, "inv_ntt#%d[%d]" % (o1, i): 1}) for i, f in enumerate(fz)) if em else False
+            def scal(fn):
+                return [parse_forms(p) for p in pr if p["inst"].startswith(fn) and in_sign(p)]
+            hb, lb, mh = scal("high_low::high_bits"), scal("high_low::low_bits"), scal("high_low::make_hint")
+            g2 = (0, P["gamma2"], {})
+            okk = len(hb) >= 8 and len(lb) >= 8 and len(mh) >= 8 \
+                and all(f == [g2, (0, 0, {"inv_ntt#%d[%d]" % (o0, i): 1})] for i, f in enumerate(hb)) \
+                and all(f == [g2, (Q, 0, {"inv_ntt#%d[%d]" % (o0, i): 1, "inv_ntt#%d[%d]" % (o2, i): Q - 1})] for i, f in enumerate(lb)) \
+                and all(f == [g2, (0, Q, {"inv_ntt#%d[%d]" % (o3, i): -1}), (Q, 0, {"inv_ntt#%d[%d]" % (o0, i): 1, "inv_ntt#%d[%d]" % (o2, i): Q - 1, "inv_ntt#%d[%d]" % (o3, i): 1})] for i, f in enumerate(mh))
+            detail.update({"w_arg_first": p0["data"]["forms"].split("\n")[0][:200], "cs1_arg_first": p1["data"]["forms"].split("\n")[0][:120],
+                           "z_first": se and [x for x in se[0]["data"]["forms"].split("\n") if x.count(":")][:1], "make_hint_first": mh[:1]})
+        ob(ok, "S9:loop-body-analysed", {"rule": "fail-closed: the symbolic run reached the transforms of the signing loop", "set": s, **detail})
+        ob(okw and okc, "S9:commitment-w", {"rule": "S9 w = NTT^-1( sum_j A-hat[i][j] o NTT(y)[j] ) with y the ExpandMask output; c-hat = NTT(SampleInBall output)", "set": s, **detail})
+        ob(okcs, "S9:challenge-products", {"rule": "S9 c*s1, c*s2, c*t0 = NTT^-1(c-hat o key precompute * 2^-32): the Montgomery factor of the stored precomputes cancels", "set": s, **detail})
+        ob(okz, "S9:response-z", {"rule": "S9 the z handed to sigEncode is y + c*s1 modulo q (centred)", "set": s, **detail})
+        ob(okk, "S9:hint-arguments", {"rule": "S9 w1 = HighBits(w); the r0 test uses LowBits(w - c*s2); MakeHint(-c*t0, w - c*s2 + c*t0) (checked on the first coefficients; the closures are index-uniform)",
+                                      "set": s, **detail})
+        samples.append({"set": s, "S9": detail})
+
+
 def main(tier):
     rep = vlib.Report("C03", tier)
     cnt = [0, 0]
@@ -154,6 +240,7 @@ def main(tier):
             samples.append(sign_rules(j, P, s, mode, ob))
             ok_res = isinstance(j["result"], dict) and list(j["result"].get("enum", {}).keys()) == ["v0"]
             ob(ok_res, "S1:always-ok:%s" % mode, {"rule": "with a working generator and ctx <= 255 signing returns Ok for every key, message, rnd", "entry": j["root"], "set": s, "result": j["partitions"]})
+    ring_arithmetic(rep, ob, sets, samples)
     ksamples, kstats = c15.analyse(rep, ob, tier, {"decompose", "make_hint", "center_mod"}, prefix="S8:")
     cov = {
         "obligations": cnt[0], "discharged": cnt[1],
